@@ -36,7 +36,9 @@ PROPS = {
         'trusted': ['hook tcp/coder/export_stream_verif.go (build tag verif) exposing messageMaxLen to gen'],
         'assumptions': ['uint32 arithmetic of DecodeHeader modelled in Z with explicit mod 2^32',
                         'the goroutine hand-off from the receive queue to the handler is C11\'s subject: the harness keeps the connection open (on-close callback) until every accepted message was dispatched'],
-        'level_text': 'TODO', 'level_note': 'TODO', 'explanation': 'TODO',
+        'level_text': 'Coq theorems (Properties/C07.v) about a Gallina transcription of DecodeHeader, the option walk, processBuffer and Run: two reads equal one read of the concatenation from every state (C07_feed_app); for ALL chunkings the final state is that of one read of the whole stream (C07_segmentation); DecodeHeader is short exactly on proper prefixes of a header and a decided answer is stable (C07_header_prefix, C07_header_stable); a stream of RFC 8323-encoded messages within the limit is delivered exactly, once, in order, buffer empty, for every chunking (C07_exact); after k good messages a frame start declaring more than max (unbounded RFC arithmetic) fails the connection at its header with exactly the k messages delivered, for every chunking and every continuation (C07_oversize, C07_oversize_message); failure is absorbing and deliveries only extend (C07_failed_absorbing, C07_delivery_monotone); the pre-repair arithmetic refutes the oversize clause (C07_oversize_refuted_before_fix). Model tied to the real tcp/client.Conn by differential execution over a scripted net.Conn.',
+        'level_note': 'Trusted: Coq kernel + vm_compute, the constant generator, the harness (scripted net.Conn, request-monitor / handler / signal logs). The hand-off from the receive queue to the handler goroutine is C11\'s; option values are C01/C02\'s (only the option walk that decides error / payload start is modelled).',
+        'explanation': 'Theorems: feed_app, segmentation independence for all chunkings, header prefix-stability, exact delivery of encoded message sequences, oversize frames refused at the header with nothing after them delivered (no uint32 wrap after the repair; refuted instance for the arithmetic before it), absorbing failure, monotone delivery. Correspondence: real tcp/client.Conn over a scripted net.Conn with harness-chosen read sizes (1-byte, coalesced, header-splitting, frame-aligned with empty reads, random), cache sizes 1/7/2048/65535, max sizes 64/300/1152/65816/66000/70000, all Len-nibble classes, token lengths 0-8, signalling and ordinary codes, option delta/length extension classes, oversize / wrapping / malformed headers and trailing partial frames; compared: ordered accepted log, handler log, signal log, error class, reads and bytes consumed.',
     },
 }
 
